@@ -514,6 +514,15 @@ def check(ctx):
     # ------------------------------------------------------------------ R8
     ctx.rule("R8", "the high-density subset used to initialise the GP hyperparameter bounds is non-empty whenever one point is logged", floor=1)
     _hpd_nonempty(ctx, prog)
+    ctx.rule("R9", "a non-finite GP prediction cannot poison the hedge scores (NaN probabilities make the next strategy draw fail)", floor=1)
+    from .c18 import _hedge_reward_rule
+
+    hcls = prog.find_class("ESSearchHedge") if any(c.name == "ESSearchHedge" for c in prog.classes()) else None
+    if hcls is None:
+        ctx.undecided("no search hedge class")
+        ctx.rules["R9"].floor = 0
+    else:
+        _hedge_reward_rule(ctx, prog, hcls)
     ctx.assume("numeric crash classes (division by zero, round(nan), singular matrices outside fit) are not decided")
     ctx.assume("dict.get reads and reads through local aliases of sub-dicts are not subscript reads of optim_state")
 
